@@ -64,6 +64,13 @@ class SimDisk:
             p = norm(p)
             self._mkdirs(posixpath.dirname(p))
             self.files[p] = bytearray(bytes.fromhex(hx))
+        # symbolic links to directories (native facade only): {link path: target directory}.
+        # With any present, paths are resolved component by component the way the OS does
+        # (the link is followed first, '..' then means the parent of the *target*).
+        self.symlinks = {}
+        for l, t in (world.get("symlinks") or {}).items():
+            self._mkdirs(posixpath.dirname(norm(l)))
+            self.symlinks[norm(l)] = norm(t)
         self.seq = 0                # global event sequence number (storage calls)
         self.events = []            # (seq, kind, path, n)
         self.listings = []          # (seq, path, [entries...]) as returned to the library
@@ -94,6 +101,34 @@ class SimDisk:
             self.dirs.add(d)
             d = posixpath.dirname(d)
 
+    def norm(self, path, follow_last=True):
+        """The disk path a library path names: lexical when the world has no symbolic
+        links, physical (component-wise, as the OS resolves names) when it has."""
+        if not self.symlinks:
+            return norm(path)
+        if isinstance(path, bytes):
+            path = path.decode("utf-8", "surrogateescape")
+        parts = [c for c in path.split("/") if c and c != "."]
+        cur = ""
+        hops = 0
+        i = 0
+        while i < len(parts):
+            c = parts[i]
+            i += 1
+            if c == "..":
+                cur = cur.rsplit("/", 1)[0] if cur else ""
+                continue
+            nxt = cur + "/" + c
+            if nxt in self.symlinks and (follow_last or i < len(parts)):
+                hops += 1
+                if hops > 40:
+                    raise OSError(_errno.ELOOP, "Too many levels of symbolic links", path)
+                parts[i:i] = [x for x in self.symlinks[nxt].split("/") if x]
+                cur = ""
+            else:
+                cur = nxt
+        return cur or "/"
+
     def snapshot(self):
         return ({p: bytes(b) for p, b in self.files.items()}, frozenset(self.dirs))
 
@@ -106,7 +141,7 @@ class SimDisk:
     def children(self, d):
         out = []
         prefix = d if d.endswith("/") else d + "/"
-        for p in list(self.files) + list(self.dirs):
+        for p in list(self.files) + list(self.dirs) + list(self.symlinks):
             if p != d and p.startswith(prefix) and "/" not in p[len(prefix):]:
                 out.append(p[len(prefix):])
         return sorted(set(out))
@@ -175,7 +210,7 @@ class SimDisk:
     def open_raw(self, path, mode, name=None):
         """mode: 'r' or 'w'.  Returns a SimRaw.  Errors are OSError subclasses;
         façades convert them."""
-        p = norm(path)
+        p = self.norm(path)
         if mode == "r":
             self.call(OPEN_R, p)
             if p in self.dirs:
@@ -196,7 +231,11 @@ class SimDisk:
         return SimRaw(self, p, mode, name if name is not None else path)
 
     def remove(self, path):
-        p = norm(path)
+        p = self.norm(path, follow_last=False)
+        if p in self.symlinks:
+            self.call(REMOVE, p)
+            del self.symlinks[p]
+            return
         self.call(REMOVE, p)
         if p in self.dirs:
             raise IsADirectoryError(_errno.EISDIR, "Is a directory", path)
@@ -205,7 +244,7 @@ class SimDisk:
         del self.files[p]
 
     def rename(self, src, dst):
-        a, b = norm(src), norm(dst)
+        a, b = self.norm(src, follow_last=False), self.norm(dst, follow_last=False)
         self.call(RENAME, a)
         if a not in self.files:
             raise FileNotFoundError(_errno.ENOENT, "No such file or directory", src)
